@@ -125,6 +125,24 @@ Definition sl_append_in (s : gslice) (p : bytes) : option gslice :=
 Inductive bres (R S : Type) : Type := BOk (r : R) (st : S) | BRange (st : S) | BPanic (p : bytes) (st : S).
 Arguments BOk {R S} r st. Arguments BRange {R S} st. Arguments BPanic {R S} p st.
 
+(* a loop inside a function that ends in a bres: a round of the loop goes on with a new loop state (LbNext),
+   leaves the loop (LbBreak: the condition is false, or break), or ENDS THE FUNCTION (LbEnd: a return, a range
+   panic, panic(v), the panic of a callee - with the state they leave).  None = the declared fuel did not
+   suffice. *)
+Inductive lstep_b (R S T : Type) : Type := LbNext (s : S) | LbBreak (s : S) | LbEnd (r : bres R T).
+Arguments LbNext {R S T} s. Arguments LbBreak {R S T} s. Arguments LbEnd {R S T} r.
+Inductive lres_b (R S T : Type) : Type := LrBreak (s : S) | LrEnd (r : bres R T).
+Arguments LrBreak {R S T} s. Arguments LrEnd {R S T} r.
+Fixpoint go_loop_b {R S T : Type} (fuel : nat) (step : S -> lstep_b R S T) (s : S) : option (lres_b R S T) :=
+  match fuel with
+  | O => None
+  | Datatypes.S f => match step s with
+                     | LbNext s' => go_loop_b f step s'
+                     | LbBreak s' => Some (LrBreak s')
+                     | LbEnd r => Some (LrEnd r)
+                     end
+  end.
+
 (* ---- writes to maps (association lists; look-ups take the first binding) ----
    m[k] = v: the binding of k is replaced if there is one, otherwise (k, v) is added at the end *)
 Fixpoint mapZ_replace {V} (m : list (Z * V)) (k : Z) (v : V) : list (Z * V) :=
